@@ -103,7 +103,7 @@ class Run:
             if p.returncode != 0:
                 self.proof_failures.append("make failed: " + (p.stdout + p.stderr)[-1500:])
             if not os.path.exists(os.path.join(VERIF, "extract", "modelrun")) or \
-               os.path.getmtime(os.path.join(VERIF, "extract", "modelrun")) < os.path.getmtime(os.path.join(THEORIES, "Codec.vo")):
+               os.path.getmtime(os.path.join(VERIF, "extract", "modelrun")) < os.path.getmtime(os.path.join(THEORIES, "CodecA.vo")):
                 b = subprocess.run(["sh", os.path.join(VERIF, "extract", "build.sh")], capture_output=True, text=True, timeout=1200)
                 if b.returncode != 0:
                     self.proof_failures.append("extraction build failed: " + (b.stdout + b.stderr)[-800:])
